@@ -130,9 +130,17 @@ func runC11(t *testing.T, cases []map[string]interface{}, ev *vEvents) {
 		worlds[i] = newWorld(vWorldOpts{NoDB: true, CertCfg: []string{"IPCertificate"}, WebUICfg: []string{"password"}})
 		worlds[i].st.Config.Base.AutomationUsers = []string{"svc"}
 	}
+	worldsPw := make([]*vWorld, nw)
+	for i := range worldsPw {
+		worldsPw[i] = newWorld(vWorldOpts{NoDB: true, CertCfg: []string{"password", "IPCertificate"}, WebUICfg: []string{"password"}})
+		worldsPw[i].st.Config.Base.AutomationUsers = []string{"svc"}
+	}
 	vParallel(nw, len(cases), func(wk, i int) {
 		w := worlds[wk]
 		c := cases[i]
+		if vStr(c, "site") == "checkauth_pw" {
+			w = worldsPw[wk]
+		}
 		ext := vStr(c, "ext")
 		var cert *x509.Certificate
 		if ext == "wellformed" {
@@ -161,7 +169,7 @@ func runC11(t *testing.T, cases []map[string]interface{}, ev *vEvents) {
 				if err == nil {
 					out["blocks"] = vBlocksJSON(nets)
 				}
-			case "checkauth":
+			case "checkauth", "checkauth_pw":
 				r := w.Do(vReq{Method: "POST", Path: "/certgen/svc?type=x509", PubKey: vPEMPub(&vUserEC.PublicKey), BodyType: "multipart",
 					Form: url.Values{"duration": {"1h"}}, Chains: w.verifiedChains(cert), Remote: remote})
 				info := w.parseIssued(r.Body)
@@ -187,6 +195,9 @@ func runC11(t *testing.T, cases []map[string]interface{}, ev *vEvents) {
 		ev.Emit(map[string]interface{}{"i": i, "ev": "Present", "case": c, "out": out})
 	})
 	for _, w := range worlds {
+		w.Close()
+	}
+	for _, w := range worldsPw {
 		w.Close()
 	}
 }
